@@ -200,7 +200,7 @@ package command
 // interface address, and must have a 4-byte form (else errSrcIP: never an empty source); the source MAC is --srcmac
 // if given, else exactly the interface's hardware address (nil stays nil: that is what selects VPN framing)
 //@ func (*packetScanCmdOpts).getScanRange
-//@   props C17 C05
+//@   props C17 C05 C02 C11
 //@   observe getInterface, To4
 //@   entry row ifaceerr: [call getInterface(o, dstSubnet) as (ifc, sip, e)] when e != nil && ret0 == nil && ret1 == e -> exit
 //@   entry row noiface:  [call getInterface(o, dstSubnet) as (ifc, sip, e)] when e == nil && ifc == nil && ret0 == nil && ret1 == errSrcInterface -> exit
@@ -214,7 +214,7 @@ package command
 // getInterface: directly attached interface (with its address on that subnet) first; else --iface with its first
 // address - unconditionally, also when that lookup fails; else the default-route interface
 //@ func (*packetScanCmdOpts).getInterface
-//@   props C17 C05
+//@   props C17 C05 C02 C11
 //@   observe getLocalSubnetInterface, ip.GetInterfaceIP
 //@   opaque ip.GetDefaultInterface
 //@   entry row localerr:  [call getLocalSubnetInterface(o, dstSubnet) as (i1, a1, e1)] when dstSubnet != nil && e1 != nil && ret2 == e1 -> exit
@@ -228,7 +228,7 @@ package command
 
 // with --iface the attached-subnet lookup is restricted to that interface (and still returns that interface)
 //@ func (*packetScanCmdOpts).getLocalSubnetInterface
-//@   props C17 C05
+//@   props C17 C05 C02 C11
 //@   observe ip.GetLocalSubnetInterface, ip.GetLocalSubnetInterfaceIP
 //@   entry row any:   [call ip.GetLocalSubnetInterface(dstSubnet) as (i, a, e)] when o.iface == nil && ret0 == i && ret1 == a && ret2 == e -> exit
 //@   entry row given: [call ip.GetLocalSubnetInterfaceIP(o.iface, dstSubnet) as (a, e)] when o.iface != nil && ret0 == o.iface && ret1 == a && ret2 == e -> exit
